@@ -172,49 +172,7 @@ theorem insert_refines {cmp : K → K → Int} {rank : K → Int} (hc : Lawful c
 
 /-- **`get` refines finite-map lookup.** -/
 theorem get_refines {cmp : K → K → Int} {rank : K → Int} (hc : Lawful cmp rank) (t : Tree K V)
-    (ho : Ordered rank t) (q : K) (w : V) : get cmp t q = some w ↔ (q, w) ∈ abs t := by
-  induction t with
-  | empty => simp [get, abs]
-  | leaf k v =>
-    have heq := hc.eq k q
-    simp only [get, abs, List.mem_singleton, Prod.mk.injEq]
-    by_cases c : cmp k q = 0 <;> simp [c] <;> grind
-  | node h k v l r ihl ihr =>
-    obtain ⟨ol, or, bl, br⟩ := ordered_node ho
-    have hlt := hc.lt q k; have heq := hc.eq q k; have hgt := hc.gt q k
-    have il := ihl ol; have ir := ihr or
-    have bl' := bl (q, w); have br' := br (q, w)
-    simp only [get, abs, List.mem_append, List.mem_cons, Prod.mk.injEq]
-    by_cases c0 : cmp q k = 0
-    · have e : q = k := heq.1 c0
-      subst e
-      simp [c0]
-      constructor
-      · intro e; right; left; exact e.symm
-      · rintro (h1 | h1 | h1)
-        · have := bl' h1; simp at this
-        · exact h1.symm
-        · have := br' h1; simp at this
-    · by_cases c1 : cmp q k < 0
-      · have nq : q ≠ k := fun e => c0 (heq.2 e)
-        have lt := hlt.1 c1
-        simp only [c0, c1, if_false, if_true, il]
-        constructor
-        · intro h1; left; exact h1
-        · rintro (h1 | h1 | h1)
-          · exact h1
-          · exact absurd h1.1 nq
-          · have := br' h1; simp at this; omega
-      · have nq : q ≠ k := fun e => c0 (heq.2 e)
-        have gt := hgt.1 (by omega)
-        simp only [c0, c1, if_false, ir]
-        constructor
-        · intro h1; right; right; exact h1
-        · rintro (h1 | h1 | h1)
-          · have := bl' h1; simp at this; omega
-          · exact absurd h1.1 nq
-          · exact h1
-
+    (ho : Ordered rank t) (q : K) (w : V) : get cmp t q = some w ↔ (q, w) ∈ abs t := get_mem hc t ho q w
 
 /-- lookup after insert (finite-map law) -/
 theorem get_insert {cmp : K → K → Int} {rank : K → Int} (hc : Lawful cmp rank) (t t' : Tree K V)
@@ -265,8 +223,70 @@ theorem insert_history_refines {cmp : K → K → Int} {rank : K → Int} (hc : 
 theorem inv_empty (rank : K → Int) : Inv rank (Tree.empty : Tree K V) := by
   simp [Inv, Bal, Ordered, abs]
 
-/-- **`ops_refine` (maps)**: every finite history, of any length, mixing `insert`, `remove`,
-`filter`, `partition` (either component), `split` (either side) and `map`, over any number of map
+/-- **`update`**: never panics, keeps the invariant, and is the finite-map update
+`m[k ↦ g (m k)]` (binding removed when `g` answers `None`). -/
+theorem update_refines {cmp : K → K → Int} {rank : K → Int} (hc : Lawful cmp rank)
+    (g : Option V → Option V) (t : Tree K V) (k : K) (hi : Inv rank t) :
+    ∃ t', update cmp g t k = some t' ∧ Inv rank t' ∧
+      ∀ q, get cmp t' q = if q = k then g (get cmp t k) else get cmp t q := by
+  obtain ⟨t', e, b, o, gg⟩ := get_update hc g t k hi.1 hi.2
+  exact ⟨t', e, ⟨b, o⟩, gg⟩
+
+/-- **`customizedUnion`, total and fuel-free in effect**: any fuel above the sum of the sizes
+suffices (the fuelled model never runs out), no panic, invariant kept, and lookups are the
+pointwise `unionWith f`. -/
+theorem customizedUnion_refines {cmp : K → K → Int} {rank : K → Int} (hc : Lawful cmp rank)
+    (f : K → V → V → Option V) (fuel : Nat) (a b : Tree K V) (ha : Inv rank a) (hb : Inv rank b)
+    (hf : (abs a).length + (abs b).length < fuel) :
+    ∃ t, customizedUnion cmp f fuel a b = some (some t) ∧ Inv rank t ∧
+      ∀ q, get cmp t q = unionWith f q (get cmp a q) (get cmp b q) := by
+  obtain ⟨t, e, b', o, g⟩ := customizedUnion_spec hc f fuel a b ha.1 ha.2 hb.1 hb.2 hf
+  exact ⟨t, e, ⟨b', o⟩, g⟩
+
+/-- **`union`** keeps the receiver's value on common keys. -/
+theorem union_refines {cmp : K → K → Int} {rank : K → Int} (hc : Lawful cmp rank) (fuel : Nat)
+    (a b : Tree K V) (ha : Inv rank a) (hb : Inv rank b) (hf : (abs a).length + (abs b).length < fuel) :
+    ∃ t, union cmp fuel a b = some (some t) ∧ Inv rank t ∧
+      ∀ q, get cmp t q = match get cmp a q with
+        | some x => some x
+        | none => get cmp b q := by
+  obtain ⟨t, e, i, g⟩ := customizedUnion_refines hc (fun _ v1 _ => some v1) fuel a b ha hb hf
+  refine ⟨t, e, i, fun q => ?_⟩
+  rw [g q]
+  cases get cmp a q <;> cases get cmp b q <;> rfl
+
+/-- **`merge`, total**: `f` decides every key bound on at least one side. -/
+theorem merge_refines {cmp : K → K → Int} {rank : K → Int} (hc : Lawful cmp rank)
+    (f : K → Option V → Option V → Option V) (fuel : Nat) (a b : Tree K V) (ha : Inv rank a)
+    (hb : Inv rank b) (hf : (abs a).length + (abs b).length < fuel) :
+    ∃ t, merge cmp f fuel a b = some (some t) ∧ Inv rank t ∧
+      ∀ q, get cmp t q = mergeWith f q (get cmp a q) (get cmp b q) := by
+  obtain ⟨t, e, b', o, g⟩ := merge_spec hc f fuel a b ha.1 ha.2 hb.1 hb.2 hf
+  exact ⟨t, e, ⟨b', o⟩, g⟩
+
+/-- **ordered traversal**: `iter` calls the callback on the bindings in ascending key order;
+`compare` is the lexicographic comparison and `equal` the pointwise equality of the two ascending
+enumerations (the traversal through `NodeEnumerationHelper` delivers exactly `abs`). -/
+theorem map_iter_refines {σ : Type} (f : K → V → σ → σ) (t : Tree K V) (s : σ) :
+    iter f t s = (abs t).foldl (fun s kv => f kv.1 kv.2 s) s := iter_refines f t s
+
+theorem map_compare_refines (cmp : K → K → Int) (f : V → V → Int) (a b : Tree K V) :
+    compare cmp f a b = lexCmp cmp f (abs a) (abs b) := compare_refines cmp f a b
+
+theorem map_equal_refines (cmp : K → K → Int) (f : V → V → Bool) (a b : Tree K V) :
+    equal cmp f a b = eqList cmp f (abs a) (abs b) := equal_refines cmp f a b
+
+/-- with a lawful compare and a faithful value test, `equal` decides equality of the finite maps -/
+theorem map_equal_iff {cmp : K → K → Int} {rank : K → Int} (hc : Lawful cmp rank) (f : V → V → Bool)
+    (hf : ∀ x y, f x y = true ↔ x = y) (a b : Tree K V) : equal cmp f a b = true ↔ abs a = abs b := by
+  rw [equal_refines]; exact eqList_iff hc f hf _ _
+
+theorem map_minKey_refines (t : Tree K V) : minKey t = ((abs t).head?).map (·.1) := minKey_refines t
+theorem map_maxKey_refines (t : Tree K V) : maxKey t = ((abs t).getLast?).map (·.1) := maxKey_refines t
+
+/-- **`ops_refine` (maps)**: every finite history, of any length, mixing `insert`, `remove`, `update`,
+`filter`, `partition` (either component), `split` (either side), `map`, `customizedUnion`, `union`
+and `merge` (the last three with internally computed fuel, i.e. fuel-free), over any number of map
 registers that start in states representing finite maps `ms i` (e.g. all `empty`), never panics,
 keeps the representation invariant in every register, and ends in states representing exactly the
 finite maps obtained by running the same history on mathematical finite maps `K → Option V`. -/
@@ -464,8 +484,61 @@ theorem set_fromList_refines {cmp : E → E → Int} {rank : E → Int} (hc : La
   obtain ⟨t, e, i, m⟩ := fromList_spec hc xs .empty ⟨by simp [Bal], by simp [Ordered, abs]⟩
   exact ⟨t, e, i, fun p => by rw [m]; simp [abs]⟩
 
+/-- **`subset`, total**: inclusion of the element sets (needs only the shape facts and the order,
+because `subset` builds unbalanced trees with `unsafeNode` internally). -/
+theorem set_subset_refines {cmp : E → E → Int} {rank : E → Int} (hc : Lawful cmp rank) (fuel : Nat)
+    (a b : STree E) (ha : Inv rank a) (hb : Inv rank b) (hf : (abs a).length + (abs b).length < fuel) :
+    ∃ r, subset cmp fuel a b = some r ∧ (r = true ↔ ∀ x ∈ abs a, x ∈ abs b) :=
+  subset_spec hc fuel a b (shape_of_bal a ha.1) ha.2 (shape_of_bal b hb.1) hb.2 hf
+
+/-- **`Set.map`, total**: the image set (through `tryJoin`, i.e. `join` when the mapped pivot still
+separates the mapped subtrees, `union ∘ insert` otherwise). -/
+theorem set_map_refines {cmp : E → E → Int} {rank : E → Int} (hc : Lawful cmp rank)
+    (refEq : E → E → Bool) (hre : ∀ a b, refEq a b = true → a = b) (f : E → E) (fuel : Nat)
+    (t : STree E) (hi : Inv rank t) (hf : (abs t).length < fuel) :
+    ∃ t', map cmp refEq f fuel t = some (some t') ∧ Inv rank t' ∧ ∀ y, y ∈ abs t' ↔ ∃ x ∈ abs t, f x = y := by
+  obtain ⟨t', e, i, m, _⟩ := map_spec hc refEq hre f fuel t hi hf
+  exact ⟨t', e, i, m⟩
+
+theorem set_disjoint_refines {cmp : E → E → Int} {rank : E → Int} (hc : Lawful cmp rank) (a b : STree E)
+    (ha : Inv rank a) (hb : Inv rank b) :
+    ∃ r, disjoint cmp a b = some r ∧ (r = true ↔ ∀ x, ¬ (x ∈ abs a ∧ x ∈ abs b)) :=
+  disjoint_refines hc a b ha hb
+
+/-- ordered traversal of sets: `iter`, `compare`, `equal` -/
+theorem set_iter_refines {σ : Type} (f : E → σ → σ) (t : STree E) (s : σ) :
+    iter f t s = (abs t).foldl (fun s v => f v s) s := iter_refines f t s
+
+theorem set_compare_refines (cmp : E → E → Int) (f : E → E → Int) (a b : STree E) :
+    compare cmp f a b = lexCmp cmp f (abs a) (abs b) := compare_refines cmp f a b
+
+theorem set_equal_refines (cmp : E → E → Int) (f : E → E → Bool) (a b : STree E) :
+    equal cmp f a b = eqList cmp f (abs a) (abs b) := equal_refines cmp f a b
+
+theorem set_equal_iff {cmp : E → E → Int} {rank : E → Int} (hc : Lawful cmp rank) (f : E → E → Bool)
+    (hf : ∀ x, f x x = true) (a b : STree E) : equal cmp f a b = true ↔ abs a = abs b := by
+  rw [equal_refines]; exact eqList_iff hc f hf _ _
+
+/-- **conversions to and from lists**: `fromList (elements s)` enumerates exactly `s` again, and
+`elements (fromList xs)` is the strictly ascending duplicate-free list with the members of `xs`. -/
+theorem set_fromList_elements {cmp : E → E → Int} {rank : E → Int} (hc : Lawful cmp rank) (t : STree E)
+    (hi : Inv rank t) :
+    ∃ t', fromList cmp (elements t) .empty = some t' ∧ Inv rank t' ∧ elements t' = elements t := by
+  obtain ⟨t', e, i, m⟩ := set_fromList_refines hc (elements t)
+  refine ⟨t', e, i, ?_⟩
+  rw [elements_refines, elements_refines]
+  apply sorted_ext (rank := rank) (fun a b h => by
+    have h1 := hc.lt a b; have h2 := hc.gt a b; have h3 := hc.eq a b; apply h3.1; omega) _ _ i.2 hi.2
+  intro x; rw [m, elements_refines]
+
+theorem set_elements_fromList {cmp : E → E → Int} {rank : E → Int} (hc : Lawful cmp rank) (xs : List E) :
+    ∃ t, fromList cmp xs .empty = some t ∧ (elements t).Pairwise (fun a b => rank a < rank b) ∧
+      ∀ p, p ∈ elements t ↔ p ∈ xs := by
+  obtain ⟨t, e, i, m⟩ := set_fromList_refines hc xs
+  exact ⟨t, e, by rw [elements_refines]; exact i.2, fun p => by rw [elements_refines]; exact m p⟩
+
 /-- **`ops_refine` (sets)**: every finite history mixing `insert`, `remove`, `union`,
-`intersection`, `diff`, `filter`, `partition`, `split`, `fromList` over any number of set registers
+`intersection`, `diff`, `filter`, `partition`, `split`, `fromList`, `map` over any number of set registers
 never panics (and `union` never runs out of its internally computed fuel), keeps the invariant and
 ends in states representing exactly the sets obtained by the same history on mathematical sets. -/
 theorem set_ops_refine {cmp : E → E → Int} {rank : E → Int} (hc : Lawful cmp rank)
